@@ -155,6 +155,28 @@ void disasm_function(const uint8_t *code, uint32_t code_size,
     DisasmLabel labels[MAX_DISASM_LABELS];
     uint32_t label_count = collect_jump_targets(code, code_size, labels, MAX_DISASM_LABELS);
 
+    /* Keep only the labels that fall on an instruction boundary (or the end): the others could
+     * never be defined in the text; such jumps are printed as raw offsets. */
+    {
+        uint32_t kept = 0;
+        for (uint32_t j = 0; j < label_count; j++) {
+            uint32_t at = 0;
+            bool boundary = (labels[j].offset == code_size);
+            while (!boundary && at < code_size) {
+                if (at == labels[j].offset) { boundary = true; break; }
+                DecodedInstruction tmp;
+                uint32_t n = isa_decode(code + at, code_size - at, &tmp);
+                at += n ? n : 1;
+            }
+            if (boundary) {
+                labels[kept].offset = labels[j].offset;
+                snprintf(labels[kept].name, sizeof(labels[kept].name), "L%u", kept);
+                kept++;
+            }
+        }
+        label_count = kept;
+    }
+
     uint32_t pos = 0;
     while (pos < code_size) {
         /* Check if there's a label at this offset */
